@@ -281,33 +281,40 @@ func (c *Client) director() (address string, t *target, err error) {
 		}
 		c.lock.Unlock()
 	}
-	done := c.donePool.Get().(chan *waiter)
-	w := c.waiterPool.Get().(*waiter)
-	w.Done = done
-	c.wait(w)
 	timer := time.NewTimer(c.DialTimeout)
-	runtime.Gosched()
-	select {
-	case <-w.Done:
-		timer.Stop()
-		resetWaiterDone(done)
-		c.donePool.Put(done)
-		err = w.err
-		*w = waiter{}
-		c.waiterPool.Put(w)
-		if err == nil {
+	for {
+		done := c.donePool.Get().(chan *waiter)
+		w := c.waiterPool.Get().(*waiter)
+		w.Done = done
+		c.wait(w)
+		runtime.Gosched()
+		select {
+		case <-w.Done:
+			resetWaiterDone(done)
+			c.donePool.Put(done)
+			err = w.err
+			*w = waiter{}
+			c.waiterPool.Put(w)
+			if err == nil {
+				c.lock.Lock()
+				address, t, err = c.schedule()
+				c.lock.Unlock()
+				if err == ErrDial {
+					// the target whose appearance woke this caller has been found dead again
+					// in the meantime: no target is live, the caller goes on waiting
+					continue
+				}
+			}
+			timer.Stop()
+		case <-timer.C:
+			seq := w.seq
 			c.lock.Lock()
-			address, t, err = c.schedule()
+			delete(c.pending, seq)
 			c.lock.Unlock()
+			err = ErrTimeout
 		}
-	case <-timer.C:
-		seq := w.seq
-		c.lock.Lock()
-		delete(c.pending, seq)
-		c.lock.Unlock()
-		err = ErrTimeout
+		return
 	}
-	return
 }
 
 func (c *Client) wait(w *waiter) {
